@@ -20,6 +20,9 @@ CROSS = {
     # concurrency changes filed under a sequential property by the agent that wrote them
     "C13-A2": ["C07"], "C13-B2": ["C07"],
     "C05-A2": ["C04"], "C11-B2": ["C10"], "C14-A2": ["C02"], "C06-A2": ["C05"],
+    "C02-B": ["C15"],
+    # wave 3: changes whose effect belongs to another property's check as well
+    "C10-B3": ["C12"], "C03-B3": ["C15"], "C08-B3": ["C01"], "C04-A3": ["C12"],
 }
 
 
